@@ -199,8 +199,12 @@ def off_class(k):
 
 
 def exit_offsets(res, which=("break", "continue")):
-    """least fixpoint of the heights (relative to the enclosing statement) at which break/continue jumps are emitted"""
-    E = {"expr": {}, "stmt": {}, "block": {}}   # offset class -> witness chain
+    """least fixpoint of the heights (relative to the enclosing loop-body statement) at which break/continue jumps are
+    emitted.  A jump that the compiler emits after popping `operand_depth(here) - operand_depth(loop)` values is
+    *depth-corrected*: through every enclosing operand position whose bookkeeping is exact (operand_depth advanced by
+    exactly the height the operand is compiled at) its offset stays what it was; an inexact position adds its error."""
+    E = {"expr": {}, "stmt": {}, "block": {}}   # (offset class, corrected?) -> witness chain
+
     def add(kind, off, why):
         if off not in E[kind]:
             E[kind][off] = why
@@ -220,16 +224,31 @@ def exit_offsets(res, which=("break", "continue")):
                         continue
                     for ev in s.events:
                         if ev[0] in which:
-                            o = off_class(ev[1])
-                            if o is not None:
-                                changed |= add(kind, o, "%s statement" % var)
+                            k = ev[1]
+                            if k is None:
+                                continue
+                            c, terms = k
+                            if terms == (("od(loop)", 1),):
+                                changed |= add(kind, (min(max(c, 0), 3), True), "%s statement (pops the pending operands first)" % var)
+                            else:
+                                o = off_class(k)
+                                changed |= add(kind, (o, False), "%s statement" % var)
                         elif ev[0] == "child":
                             o = off_class(ev[2])
                             if o is None:
                                 continue
-                            for e2, why in list(E[ev[1]].items()):
-                                tot = min(3, o + e2)
-                                changed |= add(kind, tot, "%s[%s at depth %s] → %s" % (kind, var, o if o < 3 else "≥3", why))
+                            exact = len(ev) > 3 and ev[3] == ev[2]
+                            err = 0 if exact else (o if len(ev) <= 3 or ev[3] is None else max(0, off_class(ev[2]) - (off_class(ev[3]) or 0)))
+                            for (e2, corr), why in list(E[ev[1]].items()):
+                                if corr:
+                                    tot = min(3, e2 + (0 if exact else max(err, 1)))
+                                else:
+                                    tot = min(3, o + e2)
+                                if tot != e2 or not corr:
+                                    w = "%s[%s at depth %s%s] → %s" % (kind, var, o if o < 3 else "≥3", "" if exact or not corr else ", operand_depth not advanced", why)
+                                else:
+                                    w = why
+                                changed |= add(kind, (tot, corr), w)
         for e2, why in list(E["stmt"].items()):
             changed |= add("block", e2, why)
     return E
